@@ -309,6 +309,15 @@ func cmdC12(args []string) error {
 		if *damage >= 0 && *damage < len(idx) {
 			idx = idx[:*damage]
 		}
+		if len(req) >= 3 {
+			// the third byte: reserved in a strict header (neither version nor type), part of the name length otherwise;
+			// one of these variants is always replayed
+			first := len(variants)
+			for _, b := range []byte{1, 128, 255} {
+				variants = append(variants, append([]byte{req[0], req[1], b}, req[3:]...))
+			}
+			idx = append(idx, first+r.Intn(3))
+		}
 		for _, i := range idx {
 			if err := out.write(c12Observe(fmt.Sprintf("%s.d%d", id, i), env, false, variants[i], wire.EnvelopeType(et), c.seed)); err != nil {
 				return err
